@@ -189,6 +189,56 @@ Proof.
   apply IH; [intros; apply Hk; now right|exact H].
 Qed.
 
+(* ---- what the executable structural checks of Model/Roundtrip.v mean ---- *)
+Lemma mem_key_In k l : mem_key k l = true <-> In k l.
+Proof.
+  unfold mem_key. rewrite existsb_exists. split.
+  - intros (y & Hy & E). apply jkey_eqb_spec in E. now subst.
+  - intros H. exists k. split; [exact H|]. now apply jkey_eqb_spec.
+Qed.
+
+Lemma nodup_keys_NoDup l : nodup_keys l = true -> NoDup l.
+Proof.
+  induction l as [|k r IH]; intros H; [constructor|]. cbn [nodup_keys] in H.
+  apply andb_prop in H as (H1 & H2). constructor; [|now apply IH].
+  intros Hin. apply mem_key_In in Hin. rewrite Hin in H1. discriminate.
+Qed.
+
+Lemma in_dims_all_maps : forall dims ids, in_dims dims ids = true -> In ids (all_maps dims).
+Proof.
+  intros dims ids H. apply In_all_maps. revert ids H.
+  induction dims as [|n r IH]; intros [|i ids] H; cbn [in_dims] in H; try discriminate; [constructor|].
+  apply andb_prop in H as (H1 & H2). constructor; [now apply Nat.ltb_lt|now apply IH].
+Qed.
+
+Lemma support_ok_sound C lo hi keys :
+  support_ok C lo hi keys = true ->
+  NoDup keys /\ incl keys (all_maps (map (@length Q) C)) /\
+  (forall ids, In ids keys -> (lo <= map_prob C ids)%Q) /\
+  (forall ids, In ids (all_maps (map (@length Q) C)) -> ~ In ids keys -> (map_prob C ids < hi)%Q).
+Proof.
+  unfold support_ok. intros H. apply andb_prop in H as (H & H3). apply andb_prop in H as (H1 & H2).
+  rewrite forallb_forall in H1, H3.
+  assert (Hp : forall ids, (Qabs (coeff_prod C ids) / Qred (kappa_all C) == map_prob C ids)%Q).
+  { intros ids. unfold map_prob. now rewrite Qred_correct. }
+  assert (Hincl : incl keys (all_maps (map (@length Q) C))).
+  { intros ids Hin. apply in_dims_all_maps. now apply H1. }
+  split; [now apply nodup_keys_NoDup|split; [exact Hincl|split]].
+  - intros ids Hin. specialize (H3 ids (Hincl ids Hin)). cbv zeta in H3.
+    apply mem_key_In in Hin. rewrite Hin in H3. apply Qle_bool_iff in H3. now rewrite Hp in H3.
+  - intros ids Hfull Hnot. specialize (H3 ids Hfull). cbv zeta in H3.
+    destruct (mem_key ids keys) eqn:Em; [exfalso; apply Hnot; now apply mem_key_In|].
+    apply Qnot_le_lt. intros Hle. rewrite <- Hp in Hle. apply Qle_bool_iff in Hle. rewrite Hle in H3. discriminate.
+Qed.
+
+Lemma coeffs_ok_sound C tol samples :
+  coeffs_ok C tol samples = true ->
+  forall s, In s samples -> (Qabs (snd s - coeff_prod C (fst s)) <= tol * kappa_all C)%Q.
+Proof.
+  unfold coeffs_ok. intros H s Hs. rewrite forallb_forall in H. specialize (H s Hs).
+  apply Qle_bool_iff in H. now rewrite Qred_correct in H.
+Qed.
+
 (* ====================================================================== *)
 (* D. index bookkeeping                                                    *)
 (* ====================================================================== *)
